@@ -214,7 +214,23 @@ fn show_notification(n: &Notification) -> String {
             Ack::PubRec(p) => format!("ACK PUBREC {}", p.pkid),
             Ack::PubRel(p) => format!("ACK PUBREL {}", p.pkid),
             Ack::PubComp(p) => format!("ACK PUBCOMP {}", p.pkid),
-            Ack::UnsubAck(p) => format!("ACK UNSUBACK {}", p.pkid),
+            Ack::UnsubAck(p) => format!(
+                "ACK UNSUBACK {} {}",
+                p.pkid,
+                if p.reasons.is_empty() {
+                    "-".to_string()
+                } else {
+                    p.reasons
+                        .iter()
+                        .map(|c| match c {
+                            UnsubAckReason::Success => "0".to_string(),
+                            UnsubAckReason::NoSubscriptionExisted => "17".to_string(),
+                            other => format!("?{other:?}"),
+                        })
+                        .collect::<Vec<_>>()
+                        .join(",")
+                }
+            ),
             Ack::PingResp(_) => "ACK PINGRESP".to_string(),
             other => format!("ACK ?{other:?}"),
         },
